@@ -1,4 +1,6 @@
 import Engeom.Generated.RsC08
+import Engeom.Lemmas.RealScalar
+import Mathlib.Algebra.Field.Basic
 /-
   C08 — translation tie: the 2-D point-to-surface Jacobian row of src/geom2/align2/jacobian.rs
   (regenerated on every run) is the model row whose derivative property is proved in Props/C08.
@@ -10,4 +12,14 @@ variable {α : Type} [Add α] [Sub α] [Mul α] [Div α] [Neg α] [LT α] [LE α
 
 theorem point_surface_jacobian_eq (p : V2 α) (s : SP2 α) (params : RcParams2 α) :
     GenRs.point_surface_jacobian p s params = pointSurfaceJacobian2 p s.normal params.currentRc := rfl
+
+/-- `to_wpr` (src/geom3/align3/rotations.rs: Euler angles of a rotation matrix with its two gimbal-lock
+    branches — the function `RcParams3::from_initial` starts every 3-D alignment from) is regenerated on
+    every run and equals the model's `toWpr` over ℝ (the Rust writes the south-pole pitch as `-PI / 2.0`,
+    the model as `-(π/2)`: equal in a field, and bit-identical at Float since negation is exact) -/
+theorem to_wpr_eq (m : Mat3 ℝ) : GenRs.to_wpr m = toWpr m := by
+  unfold GenRs.to_wpr toWpr wprEps
+  have hn : Gen.WPR_EPSILON_num = 1 := rfl
+  have hd : Gen.WPR_EPSILON_den = 100000000 := rfl
+  simp only [neg_div, hn, hd]
 end C08T
